@@ -102,6 +102,8 @@ def main(a):
     old = {}
     if os.path.exists(path):
         old = {r["id"]: r for r in json.load(open(path))["results"]}
+    current = {m["id"] for m in load_catalogue()}
+    old = {k: v for k, v in old.items() if k in current}
     for r in results:
         old[r["id"]] = r
     json.dump({"results": sorted(old.values(), key=lambda r: (r["property"], r["id"]))}, open(path, "w"), indent=1)
